@@ -100,6 +100,7 @@ CellWhys(c, inf) ==
     IF c.aliased = 1 THEN "P:C10:the-list-changes-when-the-caller-later-reuses-the-slice-it-passed-in" ELSE "ok",
     IF c.prevChg > 0 THEN "P:C05:a-password-returned-earlier-changed-when-a-later-one-was-generated" ELSE "ok",
     IF c.prevChg > 0 THEN "P:C15:a-password-returned-earlier-changed-when-a-later-one-was-generated" ELSE "ok",
+    IF c.errChg > 0 THEN "P:C15:an-error-returned-by-an-earlier-call-changed-when-a-later-call-was-made" ELSE "ok",
     IF c.mutated = 1 THEN "P:C15:call-changed-the-recipe-or-the-word-list" ELSE "ok",
     IF c.twinDiff = 1 THEN "P:C15:results-differ-from-a-fresh-recipe-with-the-same-field-values-on-the-same-bytes" ELSE "ok",
     IF c.ent.k = "panic" THEN "P:C14:Entropy()-panicked-on-a-recipe-with-a-list" ELSE "ok",
